@@ -339,6 +339,18 @@ def judge(inst, plan, out, base):
         e = out.exc
         if isinstance(e, RuntimeError) and 'VERIF: F-call budget' in str(e):
             return V('backtracking-terminates', 'budget', 'line search did not terminate within the F-call budget: %s' % e), facts
+        arithmetic = isinstance(e, ArithmeticError) or (isinstance(e, ValueError) and 'domain error' in str(e))
+        if arithmetic and not seam.interface_failed and not fired_any and domain and facts['refused'] > 0:
+            # no injected failure: F's refusals kept the line search at the edge of the domain until the
+            # iteration broke down numerically by itself (sqrt of a rounded-negative number, division by an
+            # underflowed value) - the same uncontained breakdown as under unattainable tolerances
+            import traceback
+            frames = [f for f in traceback.extract_tb(e.__traceback__) if os.sep + 'cvxopt' + os.sep in f.filename]
+            site = frames[-1].name if frames else '?'
+            facts['outcome'] = 'natural:' + type(e).__name__
+            return V('natural-breakdown-escapes', 'domain:' + type(e).__name__ + ':' + site,
+                     'after %d refusals by F and no injected fault %s(%s) left the solver from %s()' % (facts['refused'], type(e).__name__, e, site),
+                     exc=type(e).__name__, site=site, family='arithmetic', natural=True, trigger='domain-refusals'), facts
         if not isinstance(e, ValueError):
             where = 'kkt-%s' % first[0] if first else ('domain' if domain else 'none')
             return V('no-escape', type(e).__name__ + ':' + where + ':' + str(ph),
